@@ -787,7 +787,7 @@ type SerializedSCT struct {
 
 // SignedCertificateTimestampList is a list of signed certificate timestamps, from RFC6962 s3.3.
 type SignedCertificateTimestampList struct {
-	SCTList []SerializedSCT `tls:"minlen:1,maxlen:65335"`
+	SCTList []SerializedSCT `tls:"minlen:1,maxlen:65535"`
 }
 
 // A Certificate represents an X.509 certificate.
